@@ -105,6 +105,41 @@ fn scan_all(rep: &mut Report, secrets: &[Secret], renders: &[Render], case: &Val
     }
 }
 
+/// Everything the library draws at random is fresh: a credential id never repeats 16 bytes of a secret
+/// stored with any credential this process has seen (and no new secret repeats 16 bytes of an earlier id).
+/// One registry for the whole run, across histories - the material need not belong to the same ceremony,
+/// store or authenticator.
+fn fresh_random_material(rep: &mut Report, before: &[CredSnap], after: &[CredSnap], case: &Value) {
+    use std::collections::HashSet;
+    use std::sync::{Mutex, OnceLock};
+    static SECRET_WINDOWS: OnceLock<Mutex<HashSet<[u8; 16]>>> = OnceLock::new();
+    static ID_WINDOWS: OnceLock<Mutex<HashSet<[u8; 16]>>> = OnceLock::new();
+    let windows = |b: &[u8]| -> Vec<[u8; 16]> { b.windows(16).map(|w| <[u8; 16]>::try_from(w).unwrap()).collect() };
+    let mut sw = SECRET_WINDOWS.get_or_init(Default::default).lock().unwrap();
+    let mut iw = ID_WINDOWS.get_or_init(Default::default).lock().unwrap();
+    for c in after.iter().filter(|a| !before.iter().any(|b| b.id == a.id)) {
+        // only material the library drew itself: credentials created by a ceremony
+        let secrets: Vec<&Vec<u8>> = [c.hmac_uv.as_ref(), c.hmac_no_uv.as_ref(), c.d.as_ref()].into_iter().flatten().collect();
+        rep.count("fresh_material_checked");
+        if windows(&c.id).iter().any(|w| sw.contains(w)) {
+            rep.violate("a new credential id repeats 16 bytes of a secret stored with a credential", format!("credential id {}", crate::report::hex_short(&c.id)), case.clone());
+        }
+        for s in &secrets {
+            if windows(s).iter().any(|w| iw.contains(w) || sw.contains(w)) {
+                rep.violate("a new secret repeats 16 bytes of an earlier credential id or secret", format!("credential {}", crate::report::hex_short(&c.id)), case.clone());
+            }
+        }
+        for w in windows(&c.id) {
+            iw.insert(w);
+        }
+        for s in secrets {
+            for w in windows(s) {
+                sw.insert(w);
+            }
+        }
+    }
+}
+
 fn monitor(rep: &mut Report, history: u64, st: &Step) {
     // secrets as read back from the store after the ceremony (plus those that were there before)
     let mut all: Vec<CredSnap> = st.after.to_vec();
@@ -122,6 +157,7 @@ fn monitor(rep: &mut Report, history: u64, st: &Step) {
         renders.push(Render { kind: "log-line".into(), bytes: line.into_bytes() });
     }
     scan_all(rep, &secrets, &renders, &case);
+    fresh_random_material(rep, st.before, st.after, &case);
     // attested key labels
     let ad_bytes: Option<Vec<u8>> = match st.outcome {
         Outcome::Reg(Ok(c)) => Some(c.response.authenticator_data.to_vec()),
